@@ -401,7 +401,7 @@ package interpreter
 //@   nofail
 //@   env MemoryMeteringError
 //@   modifies ghost("metered")
-//@   ensures[C21] ghostof(result, "ikind") == kind(self)
+//@   ensures[C21] ghostof(result, "ikind") == kind(self) && result != nil
 // A new iterator starts at the range's start and satisfies the invariant that Next requires and keeps.
 //@ func NewInclusiveRangeIterator
 //@   modifies ghost("metered")
